@@ -38,10 +38,19 @@ def main():
     warnings.simplefilter("ignore")
     sys.setrecursionlimit(1000)
     mod = importlib.import_module("props." + prop.lower())
-    limit = getattr(mod, "CASE_TIMEOUT_S", 20)
+    limit = float(os.environ.get("VERIF_CASE_TIMEOUT_S") or getattr(mod, "CASE_TIMEOUT_S", 20)) * int(os.environ.get("VERIF_TIMEOUT_FACTOR", "1"))
 
     def on_alarm(signum, frame):
+        implutil.TIMED_OUT[0] = True
         raise implutil.CaseTimeout()
+
+    # The alarm interrupts the child at an arbitrary point (possibly inside the coverage tracer or while a lock is held): after
+    # a timeout the process is not trusted any more.  First pass: the child stops after recording the case; the parent has the
+    # rest of the shard (and the timed-out case itself) evaluated again in fresh children (core.run_impl).  Retry children
+    # (VERIF_TIMEOUT_FACTOR set; no tracer) carry on, so that a library that really hangs is reported case by case.
+    stop_after_timeout = not os.environ.get("VERIF_TIMEOUT_FACTOR")
+    poisoned = False
+    n_timeouts = 0
 
     signal.signal(signal.SIGALRM, on_alarm)
     done = []
@@ -80,8 +89,17 @@ def main():
                 rec["crash"] = "harness error: " + traceback.format_exc()[-800:]
             g.write(json.dumps(rec) + "\n")
             g.flush()
+            if implutil.TIMED_OUT[0]:
+                n_timeouts += 1
+                implutil.TIMED_OUT[0] = False
+                if stop_after_timeout or n_timeouts >= 3:      # a retry child gives up after three genuine (6x limit) timeouts
+                    poisoned = True
+                    break
             if "crash" not in rec:
                 done.append((c, rec.get("sx_out"), (rec.get("oracle") or {}).get("ok")))
+        if poisoned:
+            g.flush()
+            os._exit(75)
         # second pass: the library keeps no state between calls, so evaluating a case again later in the same process (after
         # all the other cases, in the opposite order) must give the same result.  Differences are appended as override records.
         n2 = int(os.environ.get("VERIF_SECOND_PASS", "250"))
